@@ -57,7 +57,7 @@ PROPS = {
         rule="case = one execution; non-trivial and distinct as for C01 (hash of event trace + schedule); aux_distinct = distinct slot-state vectors observed",
         assumptions=["abandonment only while neither TX nor RX is inside the slot (C06 covers the rest)", "sequentially consistent interleavings"],
         min_distinct=dict(quick=10000, thorough=300000),
-        required_counters=["send_failures", "requests_abandoned", "responses_duplicated", "access_windows", "transition.store:Sending->Sendable", "transition.store:Sent->None", "transition.swap:Created->None", "cfg.policy.preempt-at"],
+        required_counters=["send_failures", "requests_abandoned", "responses_duplicated", "access_windows", "transition.swap:Sending->Sendable", "transition.swap:Sent->None", "transition.swap:Created->None", "cfg.policy.preempt-at"],
         runs=[
             native("sched-release", "c01", "release", args={"family": "c02", "scale-pct": dict(quick=500, thorough=200)}),
             native("sched-debug", "c01", "debug", args={"family": "c02", "scale-pct": dict(quick=60, thorough=10)}),
@@ -93,6 +93,29 @@ PROPS = {
         runs=[
             native("enc-release", "c04", "release"),
             native("enc-debug", "c04", "debug", args={"scale-pct": dict(quick=30, thorough=5)}),
+        ],
+    ),
+
+    "C06": dict(
+        level="fault_enumeration",
+        engine="pduloop",
+        technique="runtime monitoring under virtual time: (1) complete enumeration of retry policy x lost-transmission subsets x late-poll placement with transmission count/byte-identity/result/time oracles; (2) baton-scheduled executions with a clock actor, where the deadline, the drop of the future, TX and RX are each forced at every yield-point index of a 1-slot victim+competitor scenario, plus seeded random schedules; monitors M-deadline, M-route for the competitor, M-excl, slot conservation",
+        level_text=("Fault enumeration. Part 1 (c06d) enumerates every combination of RetryBehaviour None/Count(0..3)/Forever, every subset of the first four transmissions lost, response-received-before-the-deadline-is-examined yes/no and three timeouts: transmissions must be exactly 1+retries when all are lost, exactly k+1 when transmission k is answered, byte-identical, the result Timeout(Pdu) or the response (which wins over an expired deadline), resolved within (retries+2)*timeout of virtual time, Forever still retransmitting after 7 periods. "
+                    "Part 2 runs victim tasks (deadlines 50-1000 us, retries 0..3/forever, 0-100 % loss, abandonment at any moment, early delivery) against a competitor task without deadline on 1-2 slots under the baton scheduler with a clock actor: half the cases are a systematic single-pre-emption sweep (switch to actor t at step i for all i<160, t in TX/RX/clock/competitor/victim, everything else deterministic), half seeded random/PCT schedules. The competitor must receive exactly its own responses, no window onto a buffer may overlap another party's, no slot may be re-initialised while TX/RX still holds a claim, retransmissions must be byte-identical and at most 1+retries, no panic, and all slots free at quiescence."),
+        level_note="Virtual time: deadlines fire only when the clock actor is scheduled. The exact-count clause assumes TX services every sendable frame before the next deadline (true by construction in part 1, not assumed in part 2, which only checks the upper bound). async-io timers of the std build are not exercised.",
+        rule="case = one execution (part 2: configuration + schedule, distinct by event-trace and schedule hash; non-trivial = interleaving on a slot or expiry/abandon/loss happened) or one enumerated tuple (part 1, all distinct); aux_distinct counts distinct slot-state vectors and distinct (step, actor) sweep points",
+        assumptions=["virtual clock (embassy-time driver implemented by the harness)", "sequentially consistent interleavings"],
+        min_distinct=dict(quick=6000, thorough=200000),
+        required_counters=["enumeration_complete", "timed_out", "completed_with_response", "response_received_before_deadline_examined", "forever_still_retrying",
+                           "cfg.systematic_single_preemption_sweep", "timeouts", "retransmissions", "wire_losses", "requests_abandoned", "forever_policy_observed_8_periods",
+                           "transition.swap:Sending->Abandoned", "transition.swap:RxBusy->Abandoned", "transition.swap:Sent->Sendable", "site.PollTimerFired"],
+        exhaustive_counter="enumeration_complete",
+        exhaustive_note="part 1 (policy x lost-subset x late-poll x timeout) is enumerated completely on every run",
+        runs=[
+            native("deadline-enum-release", "c06d", "release", shards=2),
+            native("deadline-enum-debug", "c06d", "debug", shards=2),
+            native("sched-release", "c01", "release", args={"family": "c06", "scale-pct": dict(quick=300, thorough=200)}),
+            native("sched-debug", "c01", "debug", args={"family": "c06", "scale-pct": dict(quick=40, thorough=10)}),
         ],
     ),
 }
